@@ -6,5 +6,6 @@ CONSTANTS
   Configs = {1}
   MaxList = 1
   GenMode = FALSE
+  SetAll = FALSE
   DEV_SpellingInEq = TRUE
 INVARIANT LawRoundTripEqual
